@@ -54,8 +54,8 @@ Proof. exact no_exhaustion. Qed.
 Print Assumptions C06_no_exhaustion.
 
 (* the hypotheses on the library parts are satisfiable: the instances used by the correspondence *)
-Theorem C06_instances : scaler_ok sc_id /\ forall w, scalarizer_ok (scal_lin w).
-Proof. exact (conj sc_id_ok scal_lin_ok). Qed.
+Theorem C06_instances : scaler_ok sc_id /\ (forall w, scalarizer_ok (scal_lin w)) /\ (forall w, scalarizer_ok (scal_lin_u w)).
+Proof. exact (conj sc_id_ok (conj scal_lin_ok scal_lin_u_ok)). Qed.
 Print Assumptions C06_instances.
 
 (* ---- a job that reported a failure of any of the four kinds has a failure string in its objective cell(s) ---- *)
